@@ -35,8 +35,24 @@ def c04(tier, seed):
     return runs
 
 
+def c05(tier, seed):
+    cfgs = ["p", "r", "crf"] if tier == "quick" else ["p", "r", "rf", "cr", "crf", "cp", "nr"]
+    runs = [run(c, "rel", "c05") for c in cfgs]
+    runs += [run(c, "dbg", "c05", ["small=1"], tag="small") for c in (["r"] if tier == "quick" else ["p", "r", "crf"])]
+    return runs
+
+
+def c19(tier, seed):
+    cfgs = ["d", "c", "r", "crf"] if tier == "quick" else ["d", "c", "p", "r", "rf", "crf", "nd", "nc"]
+    runs = [run(c, "rel", "c01", ["lossy=1"], tag="lossy") for c in cfgs]
+    runs += [run(c, "rel", "c05", ["lossy=1"], tag="lossy") for c in cfgs if c.strip("n") not in ("d", "c", "f", "cf")]
+    return runs
+
+
 PLANS = {
     "C01": c01,
+    "C05": c05,
+    "C19": c19,
     "C04": c04,
     "C03": c03,
     "C02": c02,
@@ -92,6 +108,26 @@ META = {
             "a partial parse that meets a non-digit before any digit may return Ok((0, n<=sign length)) or Empty/InvalidDigit (left open by the statement; C11 judges it)",
         ],
     },
+    "C05": {
+        "rule": "formats = all 35 same-base radices (exponent digits in the radix) + decimal/other exponent-digit radices for 2,3,12,16,36 + "
+        "the mixed pairs 4/2, 8/2, 16/2, 32/2, 16/4 (exponent radix 10, 16, 4, 2); per format the C01 generator in that radix: n-digit "
+        "neighbours of the halfway point above floats of every (quick: every 2nd f64) binade incl. 0/denormal-min and MAX/overflow, exact "
+        "ties with far sticky digits (even radices), non-terminating expansions (odd radices), fast-path limits, zero runs, exponent sweep "
+        "beyond the range, exponents beyond i32/i64, random 1..1500 digit strings; complete + partial; judged by the exact oracle reading the "
+        "emitted bytes. non-trivial as in C01.",
+        "assumptions": ["exponent character '^' (and 'p' for the C hex-float layout 16/2/10)", "oracle as in C01"],
+    },
+    "C19": {
+        "rule": "the C01 (decimal) and C05 (all radix formats) workloads parsed with lossy(true): must accept with the full count, never NaN, "
+        "correct sign, and be the correctly rounded float or one of its two neighbours (exact oracle); zero and infinity results and exact "
+        "zero inputs must be unchanged. Accept/reject/count/error equality with lossy(false) on hostile inputs is checked by the C11 executor.",
+        "assumptions": [
+            "oracle as in C01",
+            "'zero and infinities unchanged' is enforced for exact-zero inputs, for values >= 2^(emax+1) and for values <= 1/4 of the smallest "
+            "subnormal; inside the rounding interval around the overflow/underflow thresholds either neighbour (MAX/inf, 0/min-subnormal) is "
+            "accepted, which is what the one-step clause of the statement allows",
+        ],
+    },
 }
 
 
@@ -113,5 +149,13 @@ def replay_c04(body):
     return [f"replay={c['type']}:{c['radix']}:{c['input']}"]
 
 
-REPLAY = {"C04": replay_c04, "C01": replay_input, "C02": replay_bits, "C03": replay_c03}
+def replay_c05(body):
+    c = body["case"]
+    a = ["replay=" + c["input"], "format=" + c["format"]]
+    if c.get("property") == "C19":
+        a.append("lossy=1")
+    return a
+
+
+REPLAY = {"C05": replay_c05, "C04": replay_c04, "C01": replay_input, "C02": replay_bits, "C03": replay_c03}
 POST = {}
